@@ -324,7 +324,24 @@ pub fn deref_of(d: u8) -> DerefAliases {
 }
 
 pub fn search_options(o: (u8, bool, i32, i32)) -> SearchOptions {
-    SearchOptions::new().deref(deref_of(o.0)).typesonly(o.1).timelimit(o.2).sizelimit(o.3)
+    // the builder's setters are called in an order derived from the values: the result may not
+    // depend on it
+    let mut order = [0u8, 1, 2, 3];
+    let mut h = (o.0 as u32).wrapping_mul(31).wrapping_add(o.1 as u32).wrapping_mul(31).wrapping_add(o.2 as u32).wrapping_mul(31).wrapping_add(o.3 as u32);
+    for i in (1..4).rev() {
+        order.swap(i, (h % (i as u32 + 1)) as usize);
+        h /= 7;
+    }
+    let mut so = SearchOptions::new();
+    for k in order {
+        so = match k {
+            0 => so.deref(deref_of(o.0)),
+            1 => so.typesonly(o.1),
+            2 => so.timelimit(o.2),
+            _ => so.sizelimit(o.3),
+        };
+    }
+    so
 }
 
 fn hs(v: &[Vec<u8>]) -> HashSet<Vec<u8>> {
